@@ -146,14 +146,18 @@ CHECKS["C04"] = {
                   "drawn from {whole, mid first line, after first CRLF, one byte before the end} per message x {message boundary is / is not a chunk boundary}, and EVERY legal "
                   "interleaving of the two chunk sequences (no byte of response i before the last byte of request i) is executed; exactly N transactions, in order, each carrying "
                   "request i, response header id i and response body id i; the pipelining indicator is compared with what the schedule implies.",
-    "level_note": "The expected indicator is computed from the schedule alone (first byte of request j offered before the first byte of response j-1). Early responses (response overtaking "
+    "level_note": "Freed variant: with auto-destroy and htp_connp_tx_freed() the connection's list no longer holds the transactions, pairing is judged from the records taken at "
+                  "TRANSACTION_COMPLETE (request URI, X-Id response header, response body id). "
+                  "The expected indicator is computed from the schedule alone (first byte of request j offered before the first byte of response j-1). Early responses (response overtaking "
                   "its request) are outside the statement and not generated.",
     "design_ref": "DESIGN.md §6 C04",
     "rule": "framing combos x chunkings x all legal interleavings (DFS over merges); distinct = distinct callback traces",
     "bounds": {"quick": "N<=2 full product (4 inner cuts x boundary cut), N=3 with 2 inner-cut choices on 3 framing mixes", "thorough": "N=3 with all 4 inner-cut choices on 12 framing mixes (8.3e6 schedules)"},
     "mc_explanation": "states = distinct callback traces, transitions = data calls; every schedule is executed on the implementation",
     "assumptions": ["IDS personality", "QUICK_START 2.2.1-2.2.8 hand-over as implemented in mc/hx_run.c"],
-    "jobs": lambda tier: [J("cutmc", "plain", ["--mode", "pair"])] + ([J("cutmc", "asan", ["--mode", "pair", "--maxn", "2"])]),
+    "jobs": lambda tier: [J("cutmc", "plain", ["--mode", "pair"])] + ([J("cutmc", "asan", ["--mode", "pair", "--maxn", "2"])]) +
+                         # the same workload with transactions destroyed on completion and htp_connp_tx_freed() after every 1 / 2 / 3 completed responses, N up to 4
+                         [J("cutmc", "plain", ["--mode", "pair", "--maxn", "4", "--freed", str(k)]) for k in (1, 2, 3)],
 }
 
 
